@@ -672,6 +672,52 @@ def _inline(e: ast.AST, defs, depth=3) -> ast.AST:
     return e
 
 
+def _class_level_container(repo: Repo, f, fn, cont: str):
+    """`p.attr` where p is a parameter annotated with a class of the same
+    module (or self) and attr is a class-level dict / set / list display:
+    the name of that class, else None"""
+    parts = cont.split('.')
+    if len(parts) != 2:
+        return None
+    root, attr = parts
+    cls = None
+    if root in ('self', 'cls') and f.cls is not None:
+        cls = f.cls
+    else:
+        a = fn.args
+        for x in a.posonlyargs + a.args + a.kwonlyargs:
+            if x.arg == root and x.annotation is not None:
+                nm = norm(x.annotation).strip('\'"').split('.')[-1]
+                cls = f.module.classes.get(nm)
+    if cls is None:
+        return None
+    for qn in repo.mro(cls.qualname):
+        c = repo.classes.get(qn)
+        if c is None:
+            continue
+        v = c.assign_fields.get(attr)
+        if v is not None:
+            if isinstance(v, (ast.Dict, ast.Set, ast.List)) or (
+                    isinstance(v, ast.Call) and norm(v.func) in (
+                        'dict', 'set', 'list', 'collections.defaultdict',
+                        'defaultdict', 'weakref.WeakKeyDictionary',
+                        'lru.LRUMapping')):
+                # not shadowed per instance in __init__
+                init = c.methods.get('__init__')
+                if init is not None and any(
+                        isinstance(t, ast.Attribute) and t.attr == attr
+                        and isinstance(t.value, ast.Name)
+                        and t.value.id == 'self'
+                        for n in ast.walk(init.node)
+                        if isinstance(n, (ast.Assign, ast.AnnAssign))
+                        for t in (n.targets if isinstance(n, ast.Assign)
+                                  else [n.target])):
+                    return None
+                return c.name
+            return None
+    return None
+
+
 def memo_sites(repo: Repo, prefixes: Iterable[str]):
     """(function, container text, key expr, kind of problem, detail) for
     every lookup-then-store memo in the given packages."""
@@ -692,8 +738,13 @@ def memo_sites(repo: Repo, prefixes: Iterable[str]):
                         n.test, ast.BoolOp) else [n.test]
                     for t in tests:
                         if isinstance(t, ast.Compare) and len(t.ops) == 1:
+                            # (a hit hands a value back; `if k in seen:
+                            # return` is a visited set, not a memo)
                             if isinstance(t.ops[0], ast.In) and any(
-                                    isinstance(x, ast.Return)
+                                    isinstance(x, ast.Return) and
+                                    x.value is not None and not (
+                                        isinstance(x.value, ast.Constant)
+                                        and x.value.value is None)
                                     for x in n.body):
                                 lookups.append((t.comparators[0], t.left))
                             # (v := C.get(K)) is not None
@@ -724,6 +775,29 @@ def memo_sites(repo: Repo, prefixes: Iterable[str]):
                     # (a hit is handed back: a registry that only checks for
                     # duplicates is not a memo)
                     lookups.append((n.value.func.value, n.value.args[0]))
+                elif isinstance(n, ast.Assign) and isinstance(
+                        n.value, ast.Call) and isinstance(
+                        n.value.func, ast.Attribute) and \
+                        n.value.func.attr == 'get' and n.value.args and \
+                        len(n.targets) == 1 and isinstance(
+                        n.targets[0], ast.Name):
+                    # fetch-or-compute: v = C.get(k); if v is None:
+                    #     v = ...; C[k] = v
+                    v_ = n.targets[0].id
+                    cont_t = norm(n.value.func.value)
+                    k_t = norm(n.value.args[0])
+                    for i_ in ast.walk(fn):
+                        if isinstance(i_, ast.If) and norm(i_.test) in (
+                                f'{v_} is None', f'not {v_}') and any(
+                                isinstance(a_, ast.Assign) and any(
+                                    isinstance(t_, ast.Subscript) and
+                                    norm(t_.value) == cont_t and
+                                    norm(t_.slice) == k_t
+                                    for t_ in a_.targets)
+                                for b_ in i_.body for a_ in ast.walk(b_)):
+                            lookups.append((n.value.func.value,
+                                            n.value.args[0]))
+                            break
             seen = set()
             for cont_e, key_e in lookups:
                 cont = norm(_inline(cont_e, defs))
@@ -748,6 +822,7 @@ def memo_sites(repo: Repo, prefixes: Iterable[str]):
                 root = cont.split('.')[0].split('[')[0]
                 if root in params and root not in MEMO_CARRIERS:
                     continue        # a table the caller passed in
+                shared = _class_level_container(repo, f, fn, cont)
                 if root in defs or (root not in params and any(
                         isinstance(x, ast.Name) and x.id == root and
                         isinstance(x.ctx, ast.Store)
@@ -764,6 +839,29 @@ def memo_sites(repo: Repo, prefixes: Iterable[str]):
                         and isinstance(x.ctx, ast.Load)}
                 missing = [p for p in params if p not in kn and p in used
                            and p not in MEMO_CARRIERS and p != root]
+                if shared and root in params and root in used:
+                    # the table hangs off the carrier's *class*: every
+                    # carrier shares it, so what the function reads through
+                    # the carrier is an input the key has to cover
+                    reads = sorted({norm(x) for x in ast.walk(fn)
+                                    if isinstance(x, ast.Attribute)
+                                    and isinstance(x.value, ast.Name)
+                                    and x.value.id == root
+                                    and isinstance(x.ctx, ast.Load)
+                                    and norm(x) != cont})
+                    reads = [r for r in reads
+                             if r.split('.')[-1] not in kn]
+                    if reads:
+                        out.append((f, cont, ktxt, 'shared-table',
+                                    f'`{cont}` is a class-level container of '
+                                    f'{shared} (one table for every '
+                                    f'instance, for the life of the '
+                                    f'process) keyed by `{ktxt}` only, but '
+                                    f'the value is computed from '
+                                    f'{reads[:3]}: a later call with a '
+                                    f'different {root} gets the value '
+                                    f'computed for the first one'))
+                        continue
                 if any(isinstance(x, ast.Call) and norm(x.func) == 'id'
                        for x in ast.walk(key_full)):
                     out.append((f, cont, ktxt, 'identity-key',
